@@ -4,7 +4,8 @@ func init() {
 	harnesses = append(harnesses, &Harness{Name: "balance", Pkg: "services/keep-balance",
 		// R2 + R9 inside GetCurrentState only (ComputeChangeSets starts one worker per CPU: as tasks they would make a run depend on GOMAXPROCS): its index, collection-fetch and collection-processing goroutines are simulator
 		// tasks that may lose the processor before any statement of that function (w.PreemptOn)
-		Instr: []InstrSpec{{Pkg: "services/keep-balance", Files: []string{"balance.go"}, Rules: "R2:GetCurrentState,R4,R9:GetCurrentState"}}})
+		Instr: []InstrSpec{{Pkg: "services/keep-balance", Files: []string{"balance.go"}, Rules: "R2:GetCurrentState,R4,R9:GetCurrentState"},
+			{Pkg: "sdk/go/keepclient", Files: []string{"root_sorter.go"}, Rules: "R1"}}})
 	props = append(props, &Prop{ID: "C05", Harness: "balance", Level: "exploration",
 		QuickRuns: 4000, QuickChunk: 100, QuickWallS: 40, ThoroughRuns: 600000, ThoroughChunk: 500, ThoroughWallS: 600,
 		Rule:         "C05: per run a cluster layout is drawn (1-16 keepstore services x 1-3 mounts, mostly <= 4x2; read-only flags on mounts and services; devices with blank, unique or shared DeviceID, replication 1-3 and storage classes; 1-12 blocks on any subset of devices with mtimes old / new / colliding / straddling the signature TTL; 0-6 collections with replication_desired null or 0-4 and storage classes); ONE real Balancer.Run sweeps it over the simulated transport; every trash list received is then executed on the physical device table under keepstore's rules while pulls fail (or a seeded subset succeeds).",
